@@ -104,6 +104,8 @@ def run(chk: core.Check, cases: list[dict], aspects: set[str],
         for aspect, symptom, detail in symptoms_of(r):
             if aspect not in aspects:
                 continue
+            if symptom == "branch-count-emitted" and "same-end" in c["tags"]:
+                continue    # branch counts are what this stratum provokes on purpose
             flagged = True
             witness = {"case": {k: v for k, v in c.items()}, "symptom_detail": detail,
                        "hashseed": r.get("_hashseed"), "learned": r.get("puml")}
